@@ -85,6 +85,43 @@ pub fn run_api(_seed: u64, _n: usize, out: &mut Out) {
     }
     out.stat("shape_sets", 16);
     out.note("exhaustive", "all 16 shape sets (each built two ways) x 4 shapes");
+    // every `AsShape` implementor on every body form (with and without an explicit discriminant):
+    // they must all name the shape the same way
+    use darling::util::AsShape;
+    let name_of = |s: Shape| SHAPES.iter().find(|x| x.0 == s).map(|x| x.1).unwrap_or("?");
+    for (body, style, nf) in [("", "unit", 0usize), ("()", "tuple", 0), ("(u8)", "tuple", 1), ("(u8, u16)", "tuple", 2), ("(u8, u16, u32)", "tuple", 3),
+                              ("{}", "named", 0), ("{ a: u8 }", "named", 1), ("{ a: u8, b: u16 }", "named", 2)] {
+        for disc in ["", " = 3"] {
+            let di: syn::DeriveInput = syn::parse_str(&format!("enum E {{ V{}{} }}", body, disc)).unwrap();
+            let variant = match &di.data {
+                syn::Data::Enum(e) => e.variants[0].clone(),
+                _ => unreachable!(),
+            };
+            let mut answers: Vec<(&str, String)> = vec![];
+            answers.push(("syn::Variant", name_of(variant.as_shape()).to_string()));
+            answers.push(("syn::Fields", name_of(variant.fields.as_shape()).to_string()));
+            if let Ok(f) = darling::ast::Fields::<()>::try_from(&variant.fields) {
+                answers.push(("ast::Fields", name_of(f.as_shape()).to_string()));
+            }
+            match &variant.fields {
+                syn::Fields::Named(n) => answers.push(("syn::FieldsNamed", name_of(n.as_shape()).to_string())),
+                syn::Fields::Unnamed(u) => answers.push(("syn::FieldsUnnamed", name_of(u.as_shape()).to_string())),
+                syn::Fields::Unit => {}
+            }
+            if disc.is_empty() {
+                let semi = if style == "named" { "" } else { ";" };
+                let ds: syn::DeriveInput = syn::parse_str(&format!("struct S{}{}", body, semi)).unwrap();
+                if let syn::Data::Struct(d) = &ds.data {
+                    answers.push(("syn::DataStruct", name_of(d.as_shape()).to_string()));
+                }
+            }
+            for (who, a) in answers {
+                let case = tagged("c18shape", vec![atom(style), nat(nf as u128), st(who)]);
+                out.case("c18", id, &case, &tagged("shape", vec![atom(a)]).render());
+                id += 1;
+            }
+        }
+    }
 }
 
 fn list_sx(l: &[(Shape, &str)]) -> Sx {
